@@ -114,6 +114,14 @@ def run(ctx):
             spec['omen'] = {'ngram': 2, 'alphabet': L4, 'ip': [[0, x] for x in L4], 'ep': [[0, x] for x in L4],
                             'cp': [[0, x + y] for x in L4 for y in L4], 'ln': [10, 0, 1], 'keyspace': [[l, 1] for l in range(0, 19)]}
             spec['omen_prob'] = [['1', '0.5'], ['0', '0.3']]
+        if i == 7:
+            # whatever the seed: a Markov level (0.5 x 0.3) that pops right before a plain pre-terminal whose probability differs from it
+            # in the thirteenth decimal (0.5 x 0.2999999999999): two different positions in the run
+            spec = {'terminals': {'D1': [['1', '0.45'], ['2', '0.2999999999999'], ['3', '0.25']]},
+                    'grammar': [['M', '0.5'], ['D1', '0.5']], 'omen_prob': [['1', '0.4'], ['2', '0.3'], ['3', '0.2'], ['4', '0.1']], 'prince': [],
+                    'mode': 'near', 'encoding': 'utf-8',
+                    'omen': {'ngram': 2, 'alphabet': ['a', 'b'], 'ip': [[0, 'a'], [1, 'b']], 'ep': [[0, 'a'], [0, 'b']],
+                             'cp': [[0, 'aa'], [1, 'ab'], [0, 'ba'], [1, 'bb']], 'ln': [10, 0, 1, 2], 'keyspace': [[l, 1] for l in range(0, 19)]}}
         if i == 6:
             # whatever the seed: no initial n-gram at level 0 and four Markov levels run one after the other - the search then asks
             # its memo table about negative remainders; the uninterrupted run has a warm table when it reaches level 4, a resumed
@@ -132,7 +140,8 @@ def run(ctx):
         d = common.write_ruleset(os.path.join(root, f"c15_{i % 5}"), spec)
         pcfg = common.load_grammar(d)
         units = ss.units_of(pcfg)
-        if not C12.distinct_probs(units) and i != 4:
+        if not C12.distinct_probs(units) and i not in (4, 7):
+            dist.setdefault('skipped_not_distinct', []).append(i)
             continue
         full = [l for u in units for l in u[2]]
         uops = C12.unit_ops(units)
